@@ -324,6 +324,9 @@ class SimWorld(object):
         self.choices = list(schedule.get("choices", []))
         self.every = max(1, int(schedule.get("every", 1)))
         self.policy = POLICIES[int(schedule.get("policy", 0)) % len(POLICIES)]
+        # "slow process" windows: [pid, first step, number of steps] during which the
+        # process is not scheduled unless nothing else can run (bounded, so fairness holds)
+        self.freeze = [tuple(int(v) for v in f) for f in schedule.get("freeze", [])]
         self.procs = []
         self.queues = []
         self.parked = threading.Semaphore(0)
@@ -457,8 +460,19 @@ class SimWorld(object):
             return False
         return True
 
+    def _frozen(self, pid, step):
+        for (fp, start, dur) in self.freeze:
+            if fp == pid and start <= step < start + dur:
+                return True
+        return False
+
     def _pick(self, enabled):
         step = self.steps
+        if self.freeze and self.quiescent_streak <= 8:
+            thawed = [e for e in enabled if not ((e[2] is not None and self._frozen(e[2].pid, step)) or (e[2] is None and self._frozen(e[3][1].pid, step)))]
+            if thawed and len(thawed) < len(enabled):
+                self.frozen_steps = getattr(self, "frozen_steps", 0) + 1
+                enabled = thawed
         # ages for fairness
         keys = [e[0] for e in enabled]
         self.ages = {k: self.ages.get(k, step) for k in keys}
